@@ -862,6 +862,11 @@ enum Outcome {
   Rejected(Vec<JwtValidationError>),
 }
 
+/// The token's claims are spelled as `serialize_jwt` spells them.
+fn plain_spelling(case: &Case) -> bool {
+  case.issuance_claims == IssuanceClaims::Nbf && case.claim_spelling == ClaimSpelling::Library
+}
+
 pub fn check(case: &Case, obs: &mut Obs) -> CheckResult {
   // ---- fixtures: documents, credential, token, options ---------------------------------------
   let mut universe = Universe::new(case.family as u64);
@@ -1099,7 +1104,7 @@ pub fn check(case: &Case, obs: &mut Obs) -> CheckResult {
   match outcome {
     Outcome::Accepted(decoded) => {
       obs.label("accepted");
-      if all_true {
+      if all_true && plain_spelling(case) {
         obs.label("all-true-accepted");
       }
       // (i) accepted => every condition holds
@@ -1153,8 +1158,9 @@ pub fn check(case: &Case, obs: &mut Obs) -> CheckResult {
         obs.label(format!("err:{}", kind(e)));
       }
       if all_true {
-        // not a violation (one-directional statement); the share is guarded in `run`
-        obs.label("all-true-rejected");
+        // not a violation (one-directional statement); the share is guarded in `run` — over tokens spelled the way
+        // the library itself spells them (a verifier may refuse a redundant `iat` or other foreign spellings)
+        obs.label(if plain_spelling(case) { "all-true-rejected" } else { "all-true-foreign-spelling-rejected" });
         return Ok(());
       }
       vensure!(
